@@ -524,6 +524,12 @@ func (c *FnCtx) trCall(e *Expr, env *Env) (Term, types.Type) {
 		return c.get(env.st, c.elemComp(ty)), &MathArr{tInt, &MathArr{tInt, ty}}
 	case "alloc":
 		return c.get(env.st, c.comp("$alloc", "Int")), tInt
+	case "asString":
+		a, _ := arg(0)
+		return c.unbox(a, tString), tString
+	case "asInt":
+		a, _ := arg(0)
+		return c.unbox(a, tInt), tInt
 	case "typeis":
 		// typeis(x, "T")
 		a, _ := arg(0)
